@@ -422,9 +422,11 @@ notification is a `notify_all`. -/
 structure Cfg.GoodN (c : Cfg) : Prop where
   good : c.Good
   all : c.notifyAll = true
+  readers : c.readersAtomic = true
 
 instance (c : Cfg) : Decidable c.GoodN :=
-  if h : c.Good ∧ c.notifyAll = true then isTrue ⟨h.1, h.2⟩ else isFalse fun g => h ⟨g.good, g.all⟩
+  if h : c.Good ∧ c.notifyAll = true ∧ c.readersAtomic = true then isTrue ⟨h.1, h.2.1, h.2.2⟩
+  else isFalse fun g => h ⟨g.good, g.all, g.readers⟩
 
 structure MNoLost (kinds : Nat → Kind) (st : MSt) : Prop where
   parked : ∀ i, st.pc i = .parked → pred (kinds i) st.sh = false
